@@ -17,6 +17,8 @@ TNext == /\ l < Len(Cases[t].steps) /\ l' = l + 1 /\ t' = t
                                    IF q \in DOMAIN answers THEN answers[q] ELSE o.answer[1]]
                           ELSE answers
 Range1(s) == {s[j] : j \in DOMAIN s}
+RECURSIVE AllVars(_)
+AllVars(x) == (IF x.k = "V" THEN {x.n} ELSE {}) \cup UNION {AllVars(x.a[j]) : j \in DOMAIN x.a}     \* including variables inside bounds
 \* clauses violated by the step that led to the current state (evaluated on the pre-state `prev`)
 BadStep(cs, i, prev, prevAnswers) ==
   LET o == Step(cs, i)  CT == cs.ct  vv == {<<o.vv[j][1], o.vv[j][2]>> : j \in DOMAIN o.vv} IN
@@ -24,14 +26,14 @@ BadStep(cs, i, prev, prevAnswers) ==
            "EmptySubstEqual", "VarianceKept"} :
      CASE cl = "NoException"  -> o.exc # ""
        [] cl = "ResultIsSubstitution" -> o.exc = "" /\ o.res # <<>> /\ ~ResultOK(CT, prev, o, o.res[1])
-       [] cl = "SupertypesSubstituted" -> o.exc = "" /\ o.res # <<>> /\ ~SupersOK(CT, prev, o, Range1(o.supers))
+       [] cl = "SupertypesSubstituted" -> o.exc = "" /\ o.res # <<>> /\ ~SupersOK(CT, prev, o, Range1(o.supers), cs.ev)
        [] cl = "SubstLaws"    -> o.exc = "" /\ o.res # <<>> /\ ~SubstLaws(prev, o, o.res[1])
        [] cl = "VariableFree" -> o.exc = "" /\ o.res # <<>> /\ ~TVFreeOK(o, o.res[1])
        [] cl = "Immutable"    -> o.changed # <<>>
        \* substituting with the empty map returns a type the system itself considers equal
        [] cl = "EmptySubstEqual" -> o.op = "subst" /\ o.exc = "" /\ DOMAIN o.sigma = {} /\ ~o.eq
        \* a variable that survives a substitution, and every variable of a self type, keeps its declared variance
-       [] cl = "VarianceKept" -> \/ o.op = "subst" /\ o.exc = "" /\ ~(vv \subseteq vvs[o.r])
+       [] cl = "VarianceKept" -> \/ o.op = "subst" /\ o.exc = "" /\ ~({x \in vv : x[1] \notin UNION {AllVars(o.sigma[y]) : y \in DOMAIN o.sigma}} \subseteq vvs[o.r])
                                  \/ o.op = "self" /\ o.exc = "" /\ vv # {<<CT[o.c].tp[j].n, CT[o.c].tp[j].v>> : j \in DOMAIN CT[o.c].tp}
        [] cl = "MeaningKept"  -> o.op = "issub" /\ o.answer # <<>> /\ <<prev[o.r], prev[o.r2]>> \in DOMAIN prevAnswers
                                  /\ prevAnswers[<<prev[o.r], prev[o.r2]>>] # o.answer[1]}
